@@ -53,7 +53,12 @@ def cases(draw):
     # is dropped by the oracle
     for w in WRITERS:
         if w != "afm" and draw(st.booleans()):
-            items.append({"writer": w, "model": draw(S.model_specs(S.JSON, 1, 7, allow_wide=False)), "foreign": True})
+            fm_ = draw(S.model_specs(S.JSON, 1, 7, allow_wide=False))
+            if len(fm_["ctcs"]) >= 2 and draw(st.integers(0, 2)) == 0:
+                # two constraints under one name (the AFM reader names constraints after their text, so a file that
+                # states a constraint twice yields this): a writer keyed on names must still leave the model alone
+                fm_["ctcs"][-1]["name"] = fm_["ctcs"][0]["name"]
+            items.append({"writer": w, "model": fm_, "foreign": True})
     if False:
         items.append(None)
     envs = [{"hashseed": draw(st.sampled_from(["0", "1", "4242", "derived"])), "locale": "ascii"}]
